@@ -20,17 +20,18 @@ Pairs == {p \in Objs \X Objs : p[1] # p[2]}
 EffDir(ob) == IF Family(ob.kind) \in ({"ofb"} \cup SeekKinds) THEN "ks" ELSE ob.dir
 SameFn(a, b) == a.c = b.c /\ a.iv0 = b.iv0 /\ a.bs = b.bs /\ EffDir(a) = EffDir(b)
 Exact(ob) == ob.mode \in {"cts", "padded"}     \* whole-message objects: no prefix structure
-Run(ob)   == ~ob.moved /\ ob.status # "failed"   \* inp/out are one contiguous run from the IV
+Run(ob)   == ~ob.moved /\ ~ob.off /\ ob.status # "failed"   \* inp/out are one contiguous in-domain run from the IV
 
 RoundTo(n, g) == (n \div g) * g
 Pre(s, n) == SubSeq(s, 1, n)
 
 (* outputs agree on the longest common input prefix (rounded to the coarser grain) *)
 Agree(a, b) ==
-  IF Exact(a) \/ Exact(b) THEN (a.mode = b.mode /\ a.inp = b.inp /\ Len(a.out) > 0 /\ Len(b.out) > 0) => a.out = b.out
-  ELSE LET g == Max(Grain(a.kind, a.bs), Grain(b.kind, b.bs))
-           n == Min(RoundTo(CommonLen(a.inp, b.inp), g), Min(Len(a.out), Len(b.out)))
-       IN  Pre(a.out, n) = Pre(b.out, n)
+  /\ a.nref = b.nref        \* neither was refused / panicked (inside the domain) more often than the other
+  /\ IF Exact(a) \/ Exact(b) THEN (a.mode = b.mode /\ a.inp = b.inp /\ Len(a.out) > 0 /\ Len(b.out) > 0) => a.out = b.out
+     ELSE LET g == Max(Grain(a.kind, a.bs), Grain(b.kind, b.bs))
+              n == Min(RoundTo(CommonLen(a.inp, b.inp), g), Min(Len(a.out), Len(b.out)))
+          IN  Pre(a.out, n) = Pre(b.out, n)
 
 (* states exported after the same amount of the same input are equal *)
 ExportsAgree(a, b) ==
@@ -38,7 +39,7 @@ ExportsAgree(a, b) ==
   \A i \in 1..Len(a.exps) : \A j \in 1..Len(b.exps) :
      (a.exps[i].n = b.exps[j].n /\ a.exps[i].n <= CommonLen(a.inp, b.inp)) => a.exps[i].v = b.exps[j].v
 
-ConformsOut(ob) == ob.out = ob.pred
+ConformsOut(ob) == ob.off \/ ob.out = ob.pred
 ConformsExp(ob) == ob.kind # "cfbbuf" => \A i \in 1..Len(ob.exps) : ob.exps[i].v = ob.exps[i].pv
 
 XorSeq(x, y, n) == [i \in 1..n |-> XorB(x[i], y[i])]
@@ -123,7 +124,7 @@ C09 == Resume /\ PublicValue /\ EncDecAgree
 --------------------------------------------------------------------------
 (* C10  seeking and position reporting are coherent with the keystream *)
 KsFunctional == ksbad = {}
-PosOk == last.ev = "pos" =>
+PosOk == (last.ev = "pos" /\ last.o \in Objs /\ ~Ob(last.o).off) =>
            /\ (last.res = "ok" => NEq(last.v, last.pv))
            /\ (~last.fits => last.res = "err")
 C10 == KsFunctional /\ PosOk
@@ -132,14 +133,16 @@ C10 == KsFunctional /\ PosOk
 LimitOk == (last.ev = "bytes" /\ last.o \in Objs /\ Ob(last.o).kind \in SeekKinds) =>
              /\ (last.res = "ok") <=> (last.pres = "ok")
              /\ (last.res # "ok" => last.keep)
-RemainingExact == (last.ev = "rem" /\ last.some /\ last.fits) => NEq(last.v, last.pv)
+RemainingExact == (last.ev = "rem" /\ last.some /\ last.fits /\ last.o \in Objs /\ ~Ob(last.o).off) => NEq(last.v, last.pv)
 FullBlocks(m, bs) == {b \in DOMAIN m : DOMAIN m[b] = 0..(bs - 1)}
 NoReuse ==
   \A key \in DOMAIN ks : key[1] \in SeekKinds =>
     LET m  == ks[key]
         bs == Len(key[3])
     IN  bs >= 4 => \A b1 \in FullBlocks(m, bs) : \A b2 \in FullBlocks(m, bs) : b1 # b2 => m[b1] # m[b2]
-C11 == LimitOk /\ RemainingExact /\ NoReuse /\ PosOk
+(* a seek beyond the end of the keystream is refused *)
+SeekLimit == (last.ev = "seek" /\ last.pres = "err") => last.res # "ok"
+C11 == LimitOk /\ RemainingExact /\ NoReuse /\ PosOk /\ SeekLimit
 
 --------------------------------------------------------------------------
 (* C12  in-place and buffer-to-buffer forms agree, whatever the output buffer held *)
